@@ -601,14 +601,16 @@ func (t *Dense) Eq(other interface{}) bool {
 }
 
 func (t *Dense) Zero() {
+	if t.IsMasked() {
+		t.ResetMask()
+	}
 	if t.IsMaterializable() {
+		// only the elements t addresses: the rest of the window belongs to the tensor t is a view of
 		it := newFlatIterator(&t.AP)
 		if err := t.zeroIter(it); err != nil {
 			panic(err)
 		}
-	}
-	if t.IsMasked() {
-		t.ResetMask()
+		return
 	}
 	t.array.Zero()
 }
